@@ -104,6 +104,7 @@ pub struct Pair {
     pub tamper: u64,      // per cent of genuine data frames followed by a disagreeing copy of one of their fragments
     pub tamper_rng: u64,
     pub tampered: u64,
+    pub last_recv_matched: Vec<bool>, // for the packets returned by the latest receive(): byte-exact match with a submission?
     pub tamper_pool: [Vec<uv::Datagram>; 2], // genuine datagrams already handed to endpoint e
 }
 
@@ -173,6 +174,7 @@ impl Pair {
             tamper: 0,
             tamper_rng: 0x1234567,
             tampered: 0,
+            last_recv_matched: Vec::new(),
             tamper_pool: [Vec::new(), Vec::new()],
         }
     }
@@ -490,10 +492,12 @@ impl Pair {
             guarded(&hl, || hc.receive(&mut sink))
         };
         let mut uids = Vec::new();
+        self.last_recv_matched.clear();
         let pkts = std::mem::take(&mut sink.pkts);
         for p in pkts.into_iter() {
             let (uid, matched) = self.identify_payload(1 - e, &p);
             uids.push(uid);
+            self.last_recv_matched.push(matched);
             tr.line(json!({"ev": "Deliver", "ep": self.ep[e].name, "uid": uid, "match": matched, "len": p.len(), "t": self.t_ms()}));
         }
         match r {
